@@ -616,6 +616,9 @@ class DecimalRange(Range):
                     if next_type == token.NUMBER:
                         if next_type == token.NUMBER:
                             try:
+                                if "_" in next_value:
+                                    # Refuse notations only Python would accept, for example "1_000".
+                                    raise decimal.InvalidOperation("number must not contain underscores")
                                 decimal_value = decimal.Decimal(next_value)
                                 _, digits, exponent = decimal_value.as_tuple()
                                 digits_after_dot = max(0, -exponent)
